@@ -9,7 +9,7 @@ RULE = ('random histories of public edit/query calls (≤ 40 calls quick, ≤ 20
         'keys from an 11-key alphabet with case variants, duplicates and the empty key, passed as fresh caller strings, pooled strings or pointers to keys of existing items; '
         'ownership rules respected by construction (an item has one parent, a replacement is detached, referenced trees are not released or made cyclic), '
         'plus a stream of refused calls (NULL arguments, self-insertion, out-of-range indices, missing keys, detach through a wrong parent) and a directed family covering every '
-        'position of every relinking call on containers of 1..4 children followed by an append; after EVERY call the result and the full structural walk '
+        'position of every relinking call on containers of 1..4 children followed by an append, and one querying objects whose keys collide under case folding (all orders, all spellings, all by-key calls); after EVERY call the result and the full structural walk '
         '(fields, order, prev/next consistency) of every live root are compared; verdict = independent python list model; non-trivial = history of ≥ 5 calls')
 ASSUMPTIONS = ['histories respect the documented ownership rules (generator constructs them so); refused calls are listed separately',
                'hand-written transliteration validated by this differential run', 'C locale (tolower)']
@@ -19,7 +19,7 @@ def corpus(ctx): return load_corpus(ctx['verif'], 'C06')
 def generate(ctx):
     rng = random.Random(ctx['seed'] * 7919 + 6)
     quick = ctx['tier'] == 'quick'
-    cases = coregen.directed_link_cases()
+    cases = coregen.directed_link_cases() + coregen.directed_key_cases()
     n = 400 if quick else 6000
     for i in range(n):
         prof = 'edit' if i % 4 else 'own'
